@@ -6,7 +6,7 @@
 From Coq Require Import ZArith List Bool Lia ZifyBool Permutation Sorted.
 From RecordUpdate Require Import RecordSet.
 From Common Require Import Res.
-From Core Require Import World Hoare Model Step ListLemmas Reach Inv_Tl Rel_Version Rel_Vtc Proofs_C01.
+From Core Require Import World Hoare Model Step ListLemmas Reach Inv_Tl Rel_Version Rel_Vtc Rel_Ids Proofs_C01.
 Import ListNotations RecordSetNotations.
 Open Scope Z_scope.
 
@@ -118,6 +118,30 @@ Proof.
     + intros H. discriminate.
     + intros _. split; [rewrite <- V1; exact V2|].
       exists evs. split; [rewrite Ev2, Ev1; reflexivity|exact In2].
+Qed.
+
+
+(* ---- a snapshot restored into a LIVE tracklist (the model's Load starts a new process; the
+   controller's _load_state itself promises more: next_tlid := max saved current) *)
+Theorem live_restore_keeps_ids cov s w r w' :
+  load_state shuf fuel cov s w = (r, w') ->
+  next_tlid w <= next_tlid w' /\ exists l, issued w' = l ++ issued w.
+Proof. intros E. exact (load_state_ids_grow shuf fuel cov s w r w' E). Qed.
+
+Theorem live_restore_ids_stay_used mx cov s w r w' :
+  tl_inv_mx mx w -> load_state shuf fuel cov s w = (r, w') ->
+  forall i, In i (issued w) -> i < next_tlid w'.
+Proof.
+  intros ((_ & _ & H3 & _) & _) E i Hi. destruct (live_restore_keeps_ids cov s w r w' E) as [Hle _].
+  rewrite Forall_forall in H3. specialize (H3 i Hi). lia.
+Qed.
+
+Theorem step_keeps_ids o w : (forall c, o <> Load c) ->
+  let w' := snd (run_op shuf fuel o w) in
+  next_tlid w <= next_tlid w' /\ exists l, issued w' = l ++ issued w.
+Proof.
+  intros Hn. cbv zeta. destruct (run_op shuf fuel o w) as [r w'] eqn:E. cbn [snd].
+  exact (run_op_ids_grow shuf fuel o Hn w r w' E).
 Qed.
 
 End P.
